@@ -1,8 +1,8 @@
-\* process exit code: 1 path, up to 2 earlier tests with every exit code (9 = selected but not run: setUp failed)
+\* EXPECTED TO BE VIOLATED (unlabelled case only): literal precedence; no path succeeded + a timeout gives TIMEOUT
 SPECIFICATION Spec
 CONSTANTS
   MinPaths = 1
-  MaxPaths = 1
+  MaxPaths = 2
   Outcomes = {"success", "panic", "stuck"}
   Replies = {"sat_valid", "unsat", "unknown", "garbage"}
   Replies2 = {"unsat"}
@@ -11,12 +11,12 @@ CONSTANTS
   CacheSet = {FALSE}
   RefinableSet = {FALSE}
   Threads = 4
-  MaxPrev = 2
-  PrevCodes = {0, 1, 2, 3, 4, 5, 9}
+  MaxPrev = 0
+  PrevCodes = {0}
   RecordHist = FALSE
   Canon = FALSE
   Coarse = FALSE
   MutPrecedence = FALSE
   MutNoCatch = FALSE
   KilledMayRaise = FALSE
-INVARIANTS TypeOK PassOnlyIfClean CleanPasses VerdictIsPrecedence OrderIndependence NoLostCounterexampleStrict OrderIndependenceNoEarly ExitNonZeroIffNotAllPass ValidNeverAbstract OneOutputPerQuery ShutdownOnlyAfterValid
+INVARIANTS VerdictIsPrecedenceStrict
